@@ -16,6 +16,9 @@ CONSTANTS
   RegAfters = {"keep"}
   RegEmpties = {FALSE}
   AddAliases = FALSE
+  STypes = {"ptr"}
+  TypesFullUpTo = 100
+  DedupByValue = FALSE
 INVARIANTS Registered STypeOK AtMostOnce NothingBeforeShutdownSignal ReverseOrder AtReturn StatusOnlyAtReturn
 PROPERTIES LaterSignalsChangeNothing EventuallyReturns
 CHECK_DEADLOCK FALSE
